@@ -276,6 +276,94 @@ func (h *c14H) run() {
 		}
 	})
 
+	// (1c) sub-predicate objects shared between several trees (predicates are documented as immutable and safe to share):
+	// prover and verifier of tree 1 are created, then provers/verifiers of other trees over the SAME Rep/And/Or objects
+	// (children reversed, every child alone, a child next to a fresh statement) are created and used, then tree 1's are run
+	r.Guard(h.key("complete", "shared-subpredicates"), h.detail(nil), func() {
+		s := h.suite()
+		cache := map[*c14Node]proof.Predicate{}
+		var build func(n *c14Node) proof.Predicate
+		build = func(n *c14Node) proof.Predicate {
+			if p, ok := cache[n]; ok {
+				return p
+			}
+			var p proof.Predicate
+			switch n.kind {
+			case c14Rep:
+				var sb []string
+				for i := range n.S {
+					sb = append(sb, n.S[i], n.B[i])
+				}
+				p = proof.Rep(n.P, sb...)
+			default:
+				var sub []proof.Predicate
+				for _, c := range n.sub {
+					sub = append(sub, build(c))
+				}
+				if n.kind == c14And {
+					p = proof.And(sub...)
+				} else {
+					p = proof.Or(sub...)
+				}
+			}
+			cache[n] = p
+			return p
+		}
+		pred := build(t.root)
+		ch := map[proof.Predicate]int{}
+		for _, st := range t.paths[validBranch] {
+			ch[cache[st.or]] = st.idx
+		}
+		pts := c14CopyPoints(g, t.pts)
+		prv1 := pred.Prover(s, c14CopyScalars(g, t.sec), pts, ch)
+		vf1 := pred.Verifier(s, pts)
+		// other trees over the same objects
+		nOther := 0
+		use := func(q proof.Predicate) {
+			nOther++
+			s2 := h.suite()
+			_ = q.Prover(s2, c14CopyScalars(g, t.sec), c14CopyPoints(g, t.pts), ch)
+			vq := q.Verifier(s2, c14CopyPoints(g, t.pts))
+			_ = proof.HashVerify(s2, h.name, vq, valid) // outcome irrelevant (other statement); it must only not disturb tree 1
+		}
+		var walk func(n *c14Node)
+		walk = func(n *c14Node) {
+			if n.kind == c14Rep {
+				return
+			}
+			var rev []proof.Predicate
+			for i := len(n.sub) - 1; i >= 0; i-- {
+				rev = append(rev, cache[n.sub[i]])
+				use(cache[n.sub[i]])
+			}
+			if len(rev) > 1 {
+				if n.kind == c14And {
+					use(proof.And(rev...))
+				} else {
+					use(proof.Or(rev...))
+				}
+			}
+			for _, c := range n.sub {
+				walk(c)
+			}
+		}
+		walk(t.root)
+		// a fresh statement over a new variable placed in front of the whole tree shifts every variable index
+		use(proof.And(proof.Rep("c14fresh.P", "c14fresh.x", "c14fresh.B"), pred))
+		prf, err := proof.HashProve(s, h.name, prv1)
+		var e1, e2 error
+		if err == nil {
+			e1 = proof.HashVerify(s, h.name, vf1, prf)
+			e2 = proof.HashVerify(s, h.name, vf1, valid)
+		}
+		r.Eval(h.class("complete/shared-subpredicates"), h.desc("shared-sub"), nontriv)
+		r.NoteAdd(c14HP+"shared-subpredicates.other-trees-built", int64(nOther))
+		if err != nil || e1 != nil || e2 != nil {
+			d := h.detail(map[string]any{"prove_error": fmt.Sprint(err), "verify_own_proof": fmt.Sprint(e1), "verify_earlier_valid_proof": fmt.Sprint(e2), "other_trees_built_in_between": nOther})
+			r.Violation(h.key("complete", "shared-subpredicates/rejected"), "prover/verifier of a tree stop working after provers/verifiers of other trees over the same predicate objects were created", d)
+		}
+	})
+
 	h.falsify(validBranch)
 	h.mutate(valid)
 	h.cross(valid)
